@@ -312,10 +312,14 @@ def family_leg(ck, S):
     import socket
     names = {'v4only.example': [(socket.AF_INET, '10.9.0.4')], 'v6only.example': [(socket.AF_INET6, '2001:db8::6')],
              'dual.example': [(socket.AF_INET6, '2001:db8::46'), (socket.AF_INET, '10.9.0.46')]}
-    servers = {('10.9.0.4', 22): S['plain'], ('2001:db8::6', 22): S['terrapin'], ('2001:db8::46', 22): S['rsa1024'], ('10.9.0.46', 22): S['rsa4096']}
+    servers = {('10.9.0.4', 22): S['plain'], ('2001:db8::6', 22): S['terrapin'], ('2001:db8::46', 22): S['rsa1024'], ('10.9.0.46', 22): S['rsa4096'],
+               # (other servers on the port -p names: a line without a port means that port, for every line)
+               ('10.9.0.4', 2222): S['rsa1024'], ('2001:db8::6', 2222): S['plain'], ('2001:db8::46', 2222): S['terrapin'], ('10.9.0.46', 2222): S['terrapin']}
     order = ['v6only.example', 'v4only.example', 'dual.example']
     scs, meta = [], []
-    for fam in ([], ['-4'], ['-6'], ['-4', '-6'], ['-6', '-4']):
+    for fam in ([], ['-4'], ['-6'], ['-4', '-6'], ['-6', '-4'], ['-p', '2222'], ['-6', '-p', '2222'], ['-b'], ['-b', '-4']):
+        # (not -l: under a level the target line of a list keeps a '# general' heading a single-target report has no use for - a difference of
+        # presentation the per-level laws of C15 speak about, not an audit made differently)
         singles = runner.run_many([{'argv': ['-n', '--skip-rate-test'] + fam + [h], 'servers': servers, 'resolver': names} for h in order])
         if any(r.get('harness_error') or r.get('hang') for r in singles):
             raise common.Machinery('family leg: single-target runs failed')
@@ -332,7 +336,8 @@ def family_leg(ck, S):
         if r.get('hang'):
             ck.violation('run-did-not-complete options=%s' % ''.join(fam), 'the run never ended', replay)
             continue
-        labels = ['%s:22' % h for h in lst]
+        port = fam[fam.index('-p') + 1] if '-p' in fam else '22'
+        labels = ['%s:%s' % (h, port) for h in lst]
         got = {}
         for b_ in multi.split_text(r['stdout']):
             lab = multi.label_of_block(b_, labels) or next((l for l in labels if l.rsplit(':', 1)[0] in b_), None)
@@ -343,8 +348,9 @@ def family_leg(ck, S):
             ref = singles[h]
             ref_report = ref.get('exit') in (0, 2, 3)
             blk = got.get(lab)
-            has_report = blk is not None and '(gen) banner:' in blk
-            if blk is None or has_report != ref_report or (ref_report and multi.strip_target_line(blk).rstrip('\n') != multi.normalise_single(ref['stdout'])):
+            import re as _re
+            has_report = blk is not None and ('(gen) banner:' in blk or _re.search(r'^\((kex|key|enc|mac)\) ', blk, _re.M) is not None)
+            if blk is None or (has_report and not ref_report) or (ref_report and multi.strip_target_line(blk).rstrip('\n') != multi.normalise_single(ref['stdout'])):
                 ck.violation('isolation options-not-applied-per-target options=%s' % (''.join(fam) or 'none'),
                              'target %s in the list %r under %r, %d thread(s): %s; alone under the same options it %s'
                              % (h, lst, fam, threads, 'no block' if blk is None else ('a report' if has_report else 'an error'),
